@@ -86,10 +86,12 @@ func (s *JoiningSource) run() error {
 	// if liveSource works, no need for fileSource or wrapped handler
 	if src := s.tryGetSource(s.handler, s.liveSourceFactory); src != nil {
 		s.liveSource = src
+		verifPoint("joining.live_obtained")
 
 		if !s.shutdownWith(s.liveSource) {
 			return s.Err()
 		}
+		verifPoint("joining.live_registered")
 		s.liveSource.Run()
 		return s.liveSource.Err()
 	}
@@ -104,19 +106,23 @@ func (s *JoiningSource) run() error {
 			s.startBlockNum,
 			s.cursor) // not s.cursor.String(): the cursor is nil when starting from a block number
 	}
+	verifPoint("joining.file_obtained")
 
 	if !s.shutdownWith(fileSrc) {
 		return s.Err()
 	}
+	verifPoint("joining.file_registered")
 	fileSrc.Run()
 
 	if s.liveSource == nil { // got stopped before joining
 		return fileSrc.Err()
 	}
+	verifPoint("joining.joined")
 
 	if !s.shutdownWith(s.liveSource) {
 		return s.Err()
 	}
+	verifPoint("joining.joined_registered")
 	s.liveSource.Run()
 	return s.liveSource.Err()
 
@@ -156,11 +162,13 @@ func (s *JoiningSource) fileSourceHandler(blk *pbbstream.Block, obj interface{})
 		if s.cursorIsTarget {
 			if src := s.liveSourceFactory.SourceThroughCursor(blk.Number, s.cursor, s.handler); src != nil {
 				s.liveSource = src
+				verifPoint("joining.handler_live_obtained")
 				return stopSourceOnJoin
 			}
 		} else {
 			if src := s.liveSourceFactory.SourceFromBlockNum(blk.Number, s.handler); src != nil {
 				s.liveSource = src
+				verifPoint("joining.handler_live_obtained")
 				return stopSourceOnJoin
 			}
 		}
